@@ -185,7 +185,7 @@ pub trait Sim: Sync {
     None
   }
   /// Is a watchdog expiry of this plan inconclusive rather than a violation?
-  fn hang_is_inconclusive(&self, _plan: &Value) -> bool {
+  fn hang_is_inconclusive(&self, _plan: &Value, _marker: Option<&str>) -> bool {
     false
   }
   /// Extra, simulator specific passes run by the parent after the batch (e.g. loopback conformance).
